@@ -284,9 +284,16 @@ impl std::ops::Not for RowIdMask {
     type Output = Self;
 
     fn not(self) -> Self::Output {
-        Self {
-            block_list: self.allow_list,
-            allow_list: self.block_list,
+        match (self.allow_list, self.block_list) {
+            // The complement of "all rows" is "no rows"
+            (None, None) => Self::allow_nothing(),
+            (Some(allow_list), None) => Self::from_block(allow_list),
+            (None, Some(block_list)) => Self::from_allowed(block_list),
+            // Selected rows are (allow - block), so everything else is the complement
+            (Some(mut allow_list), Some(block_list)) => {
+                allow_list -= &block_list;
+                Self::from_block(allow_list)
+            }
         }
     }
 }
